@@ -828,7 +828,12 @@ func (v *vRun) judge() {
 					sk := r.r.SkippedRange
 					if skippedSome {
 						c.stat("report_after_drop")
-						if sk == nil || sk.Start != prev.r.Range.End || sk.End != r.r.Range.Start {
+						if prev.r.Range.End == r.r.Range.Start && sk == nil {
+							// the dropped checkpoints covered indexes that a tail truncation removed
+							// afterwards; the log was re-appended and this report starts exactly where
+							// the last delivered one ended: the range to name is empty, nil names it
+							c.stat("report_after_drop_empty_skip")
+						} else if sk == nil || sk.Start != prev.r.Range.End || sk.End != r.r.Range.Start {
 							c.witness("C18", "skipped-range", fmt.Sprintf("report %v after dropped checkpoints carries SkippedRange %v, want [%d,%d)",
 								r.r.Range, sk, prev.r.Range.End, r.r.Range.Start), v.line)
 						}
